@@ -847,6 +847,13 @@ pub fn check_exclusion(ctx: &Ctx, wd: &WorkerDir, job: &Job, st: &mut RunStats) 
     }
     let eout = reference(ctx, wd, job, &text);
     st.procs += 1;
+    if eout.status != 0 && family.len() > e.len() {
+        // some excluded declaration has relatives (a parent, siblings): the backend may fail on THEM
+        // (e.g. the Java backend refuses a packet with a body and no children left) — that concerns
+        // declarations related to E by inheritance, about which the property claims nothing. Counted.
+        bump(&mut st.enabled, "exclusion_leaves_relatives_unsupported(not_judged)", 1);
+        return None;
+    }
     if eout.status != 0 {
         return Some(Violation {
             invariant: "I5",
